@@ -254,6 +254,42 @@ func (cc *clientCxn) onDispatchCommand(cmd respValue) {
 	}()
 }
 
+// While a command blocks (BLPOP ...) nobody reads the socket, so a peer that goes
+// away would not be noticed and its command would keep competing for list elements.
+// watchPeer reads ahead during the block: request bytes that arrive are kept for
+// later, and an end-of-stream ends the blocked command. The returned function stops
+// the watching and must be called before the command's reply is written.
+func (cc *clientCxn) watchPeer() (stop func()) {
+	finished := make(chan struct{})
+	go func() {
+		defer close(finished)
+		buffer := make([]byte, 1024*8)
+		for {
+			n, err := cc.cxn.Read(buffer)
+			if n > 0 {
+				// pipelined requests: parsed after the blocked command has replied
+				cc.inbound = append(cc.inbound, buffer[0:n]...)
+			}
+			if err != nil {
+				var netErr net.Error
+				if errors.As(err, &netErr) && netErr.Timeout() {
+					return // stop() was called
+				}
+				// the peer is gone: end the block and the connection
+				cc.cs.unblock("", false)
+				cc.RequestClose()
+				return
+			}
+		}
+	}()
+
+	return func() {
+		cc.cxn.SetReadDeadline(time.Now()) // makes the pending Read return
+		<-finished
+		cc.cxn.SetReadDeadline(time.Time{})
+	}
+}
+
 func (cc *clientCxn) ServerAddr() string {
 	return cc.cxn.LocalAddr().String()
 }
